@@ -130,6 +130,9 @@ def install(it):
     m(r'std::path::Path::with_extension::<.*>', lambda it, p, ext: S(pstr(p).rsplit('.', 1)[0] + '.' + pstr(ext)))
     m(r'<std::path::PathBuf as std::ops::Deref>::deref', lambda it, p: p)
     m(r'std::path::Path::new::<.*>', lambda it, p: p)
+    m(r'std::path::PathBuf::(as_path|as_mut_os_string|as_os_str)', lambda it, p: p)
+    m(r'std::path::Path::(to_path_buf|as_os_str)', lambda it, p: p)
+    m(r'<std::path::PathBuf as std::convert::From<.*>>::from', lambda it, p: p)
     m(r'std::path::Path::(exists|is_file)', lambda it, p: pstr(p) in it.fs.files)
     m(r'std::path::Path::try_exists', lambda it, p: OK(pstr(p) in it.fs.files))
     def create(it, p):
